@@ -87,6 +87,10 @@ def run(res, tier, rng, table_diffs=()):
             compile_fail.append(["stel a = 1", bad, aft, "a", after[(i + j) % len(after)], "a + 1"])
     sessions += compile_fail
     reqs += ["session 100000 " + " ".join(hx(l) for l in s) for s in compile_fail]
+    from .. import gen2
+    ftd = gen2.failure_then_declaration_sessions()
+    sessions += ftd
+    reqs += ["session 100000 " + " ".join(hx(l) for l in s) for s in ftd]
     sessions += never_written
     reqs += ["session 100000 " + " ".join(hx(l) for l in s) for s in never_written]
     sessions += deep
